@@ -132,6 +132,13 @@ M = [
   "\t\tif (an->parent->left == an)\n\t\t\treturn &an->parent->right;\n\t\telse\n\t\t\treturn &an->parent->left;",
   ["C16"], "find_reference returns the sibling slot: the wrong child pointer of the parent is overwritten"),
 
+ ("avl_insert_init_before_dup_check", "iv_avl.c",
+  ["\tstruct iv_avl_node **pp;\n\n\t/*\n\t * Find the node to which an is to be attached as a leaf.\n\t */",
+   "\tan->left = NULL;\n\tan->right = NULL;\n\tan->parent = p;\n\tan->height = 1;\n\t*pp = an;"],
+  ["\tstruct iv_avl_node **pp;\n\n\tan->left = NULL;\n\tan->right = NULL;\n\tan->height = 1;\n\n\t/*\n\t * Find the node to which an is to be attached as a leaf.\n\t */",
+   "\tan->parent = p;\n\t*pp = an;"],
+  ["C16"], "duplicate insert must change nothing: the node is initialised before the duplicate search, so handing insert the already linked node (double registration) wipes its children and height (seed2/C16)"),
+
  # ---- C17: iv_fd_pump (src/iv_fd_pump.c) -----------------------------------------------------------------------
  ("pump_no_memmove", "iv_fd_pump.c",
   "\tif (!splice_available)\n\t\tmemmove(buf->u.buf, buf->u.buf + ret, ip->bytes);\n",
